@@ -203,6 +203,19 @@ def known_gate_circuits(cirq, gs, tier):
                 out.append((name, qs, cirq.Circuit(ge.on(qs[0], qs[1]))))
                 if tier != 'quick' or (e == -1 and g in (cirq.ISWAP, cirq.SWAP)):
                     out.append((name, qs, cirq.Circuit(cirq.CZ(qs[1], qs[2]), ge.on(qs[0], qs[1]), cirq.CZ(qs[1], qs[2]))))
+        # three-qubit gates with their own decomposition routes, at fractional powers, on the qubits in any order
+        import itertools as _it
+        perms = list(_it.permutations(qs)) if tier != 'quick' else [tuple(qs), (qs[2], qs[0], qs[1])]
+        for g3 in (cirq.CCZ, cirq.CCX, cirq.CSWAP):
+            for e in ((0.5, -0.3, 1, 2.5) if tier != 'quick' else (0.5, 1)):
+                try:
+                    ge = g3 ** e
+                except TypeError:
+                    continue
+                if ge is NotImplemented or ge is None:
+                    continue
+                for perm in perms:
+                    out.append((name, qs, cirq.Circuit(ge.on(*perm))))
     return out
 
 
@@ -333,6 +346,69 @@ def check_devices(ctx, cirq, n):
             ctx.report_witness(f'device:rejects-native:{dname}', 'the device rejects an operation of its gateset on its own qubits', dict(rep, impl_out=[False], spec_out=[True]))
 
 
+def check_circuit_validation(ctx, cirq, n):
+    """a device accepts a circuit exactly when it accepts each of its operations (and, for devices that constrain moments, each
+    moment): the verdict on a circuit may not depend on what was validated before it in the same call (tags included)"""
+    import cirq_aqt
+    import cirq_google as cg
+    import cirq_ionq
+
+    rng = ctx.substream('circuit-validation')
+    gq = [cirq.GridQubit(0, 0), cirq.GridQubit(0, 1), cirq.GridQubit(1, 1)]
+    pairs = [(gq[0], gq[1]), (gq[1], gq[2])]
+    devices = {
+        # tag-sensitive gate families without their complement: physical Z only, virtual Z only
+        'GridDevice[physical-z]': (cg.GridDevice._from_device_information(qubit_pairs=pairs, gateset=cirq.Gateset(cirq.CZ, cirq.PhasedXZGate, cirq.GateFamily(cirq.ZPowGate, tags_to_accept=[cg.PhysicalZTag()]), cirq.MeasurementGate)), gq),
+        'GridDevice[virtual-z]': (cg.GridDevice._from_device_information(qubit_pairs=pairs, gateset=cirq.Gateset(cirq.CZ, cirq.PhasedXZGate, cirq.GateFamily(cirq.ZPowGate, tags_to_ignore=[cg.PhysicalZTag()]), cirq.MeasurementGate)), gq),
+        'Sycamore': (cg.Sycamore, [cirq.GridQubit(5, 2), cirq.GridQubit(5, 3), cirq.GridQubit(6, 3)]),
+        'IonQ': (cirq_ionq.IonQAPIDevice(qubits=cirq.LineQubit.range(3)), cirq.LineQubit.range(3)),
+        'AQT': (cirq_aqt.aqt_device.get_aqt_device(3)[0], cirq.LineQubit.range(3)),
+    }
+
+    def accepts(f, x):
+        try:
+            f(x)
+            return True
+        except (ValueError, NotImplementedError):
+            return False
+
+    # systematic: the same gate on the same qubits in two tag variants, in both orders, on every device
+    variants = [lambda op: op, lambda op: op.with_tags(cg.PhysicalZTag()), lambda op: op.with_tags('note'), lambda op: op.with_tags(cg.FSimViaModelTag())]
+    forced = []
+    for dname, (dev, qs) in devices.items():
+        for base in (cirq.Z(qs[0]) ** 0.3, cirq.CZ(qs[0], qs[1]), cirq.FSimGate(0.3, 0.2).on(qs[0], qs[1]), cirq.X(qs[0])):
+            for va in variants:
+                for vb in variants:
+                    if va is not vb:
+                        forced.append((dname, [va(base), vb(base)]))
+    if ctx.tier == 'quick':
+        forced = forced[ctx.seed % 2::2]
+    for it in range(n + len(forced)):
+        dname = rng.choice(list(devices))
+        dev, qs = devices[dname]
+        ops = []
+        if it < len(forced):
+            dname, ops = forced[it]
+            dev, qs = devices[dname]
+        for _ in range(rng.randint(2, 4) if it >= len(forced) else 0):
+            g = rng.choice([cirq.Z ** 0.3, cirq.Z ** 0.3, cirq.CZ, cirq.X, cirq.PhasedXZGate(x_exponent=0.2, z_exponent=0.1, axis_phase_exponent=0.3), cirq.H, cirq.ISWAP, cg.SYC, cirq.XX ** 0.5])
+            k = cirq.num_qubits(g)
+            t = [qs[0]] if k == 1 and rng.random() < 0.6 else rng.sample(list(qs), k)
+            op = g.on(*t)
+            if rng.random() < 0.5:
+                op = op.with_tags(rng.choice([cg.PhysicalZTag(), 'note', cg.FSimViaModelTag()]))
+            ops.append(op)
+        circuit = cirq.Circuit(ops, strategy=cirq.InsertStrategy.NEW)
+        per_op = all(accepts(dev.validate_operation, op) for op in circuit.all_operations())
+        per_moment = all(accepts(dev.validate_moment, m) for m in circuit)
+        whole = accepts(dev.validate_circuit, circuit)
+        ctx.count('check', f'circuit-validation:{dname}')
+        ctx.case(['circuit-validation', dname, repr(circuit)], True)
+        if whole != (per_op and per_moment):
+            ctx.report_witness(f'device:circuit-validation:{dname.split("[")[0]}', 'validate_circuit disagrees with validating the operations (and moments) of the circuit one by one',
+                               {'lines': [{'device': dname, 'circuit': repr(circuit)}], 'impl_out': [whole], 'spec_out': [per_op and per_moment], 'theorem_or_correspondence': 'accept iff every operation is accepted'})
+
+
 def run(ctx: common.Run):
     import cirq
     import networkx as nx
@@ -356,6 +432,7 @@ def run(ctx: common.Run):
     check_routing(ctx, cirq, nx, n)
     check_gatesets(ctx, cirq, n * 2)
     check_devices(ctx, cirq, n * 3)
+    check_circuit_validation(ctx, cirq, n * 3)
 
 
 def replay(ctx, rep):
